@@ -8,6 +8,7 @@ history sweep and the `-race` stress run of search-C09.
 -/
 import Proofs.CacheProto
 import Gen.Facts
+import Gen.Tables
 namespace Props.C09
 open Model.Cache
 
@@ -41,5 +42,19 @@ accessors are read-only, so concurrent accessor calls on a shared object cannot 
 theorem fields_written_only_by_constructors :
     ((Gen.Facts.writes.filter (fun w => w.2.1 == "field" && !(w.2.2.2 == "constructor" || w.2.2.2 == "setter"))).map (fun w => (w.1, w.2.2.1)) ==
     ([] : List (String × String))) = true := by decide +kernel
+
+/-- the only package-level variables of the six data packages that are not constant data literals are the year cache
+and its lock: there is no other shared mutable buffer (a scratch slice `make(...)` would appear here) -/
+theorem non_table_package_state : (Gen.Tables.skipped ==
+    ["calendar.CACHE_YEAR (not a data literal)", "calendar.lock (no initializer)"]) = true := by decide +kernel
+
+/-- package-level variables of ShouXingUtil (not covered by Gen.Tables): exactly the coefficient tables -/
+theorem shouxing_package_vars : (((Gen.Facts.pkgVars.filter (fun v => v.1 == "ShouXingUtil")).map (fun v => v.2.1)) ==
+    ["DT_AT", "NUT_B", "QB", "QI_KB", "SB", "SHUO_KB", "XL0", "XL1"]) = true := by decide +kernel
+
+/-- no element of a package-level table is ever assigned; the only element writes through a struct field are those of
+`LunarYear.compute` filling the freshly made term slice of the year it is building -/
+theorem element_writes : (Gen.Facts.elemWrites ==
+    [("calendar.LunarYear.compute", "field:LunarYear.jieQiJulianDays")]) = true := by decide +kernel
 
 end Props.C09
